@@ -14,6 +14,15 @@ HARNESS = ("harness/cmd/vharness (Go, built against /repo's working tree with -t
 NOT_APPLICABLE = {}
 
 PROPS = {
+    "C20": {
+        "design_ref": "DESIGN.md section 6 (C20)",
+        "projection": "packets surfaced to the client core per transport; application-level traces",
+        "mismatch_is_input": True,
+        "level_text": "Coq theorems on the two adapters (Model/WsBridge.v): for every script over {response, push, heartbeat from the peer, pong to the client's heartbeat, close with code/reason}, the packets handed to the client core over TCP and over WebSocket agree in type, command, status, body and request id (except the id a surfaced WebSocket ping draws from the connection's generator), and are routed identically; WebSocket ping/pong/close are surfaced as heartbeat request / heartbeat response carrying the heartbeat id as request id / close packet; heartbeat and close packets the client writes travel as ping/close control frames carrying the body. gorilla/websocket is a parameter (handler contract). Tie: one script run over both transports; surfaced packets compared with the model per transport, application traces diffed. Partial: abrupt-drop recovery and ordering around close are compared by scenario only; undecodable data frames (ignored on WebSocket, fatal on TCP) are outside the common scripts.",
+        "level_note": "Trusted: kernel, extraction, harness, gorilla/websocket per its documented handler contract (control handlers run inside the read; WriteControl concurrent with WriteMessage).",
+        "assumptions": ["gorilla/websocket handler contract", "proto.Marshal of control.Close is deterministic", "the peer's pong carries the client's heartbeat body (C15)"],
+        "modelled": "wsConn.onPing/onPong/onClose/readPacket/Write routing, tcpConn path by identity",
+    },
     "C15": {
         "design_ref": "DESIGN.md section 6 (C15)",
         "projection": "per tick: heartbeat (request id, heartbeat id) or recycle; echo of the peer's heartbeat",
